@@ -118,6 +118,7 @@ type sched struct {
 	ctl     chan struct{}
 	ex      *Exec
 	seq     int
+	sleeps  int // number of Sleep operations executed (virtual time has no other measure)
 	chans   map[uintptr]*chanState
 	horizon  int
 	abort    bool
@@ -682,6 +683,7 @@ func Sleep(d time.Duration) {
 	}
 	t := s.cur
 	t.sleepAt = s.seq
+	s.sleeps++
 	s.yield(&op{name: "Sleep", sleep: true, enabled: func() bool { return s.seq > t.sleepAt }})
 }
 
@@ -711,6 +713,15 @@ func GoLow(f func()) {
 	nt.pend = &op{name: "Start", visible: true}
 	go s.body(nt, f)
 	s.yield(&op{name: "Go", visible: true})
+}
+
+// Sleeps returns the number of Sleep operations executed so far in this execution (by all
+// threads): the only measure of elapsed virtual time.
+func Sleeps() int {
+	if S == nil {
+		return 0
+	}
+	return S.sleeps
 }
 
 // Steps returns the number of scheduling steps executed so far in this execution.
